@@ -72,7 +72,9 @@ def check(an: Analysis) -> None:
         c = regs["timeout"][0].ast
         if not (c.args and "attr:self._timeout" in d.of(c.args[0])):
             ob.fail(f, c, "the timer delay is not self._timeout")
-        if not (len(c.args) >= 3 and val_is(c.args[2], FUT)):
+        tcb = _nested(f, c.args[1].id) if len(c.args) > 1 and isinstance(c.args[1], ast.Name) else None
+        reads_closure = tcb is not None and not tcb.param_names() and any(isinstance(x, ast.Name) and FUT in Deps(prog, tcb).origins(x) for x in tcb.own_nodes())
+        if not ((len(c.args) >= 3 and val_is(c.args[2], FUT)) or (len(c.args) == 2 and reads_closure)):
             ob.fail(f, c, "the timer callback does not receive the result future")
         tv = prog.cls("helpers.timeouted._AsyncTimeout").attr_val.get("_timeout", [])
         init = prog.fn("helpers.timeouted._AsyncTimeout.__init__")
